@@ -442,6 +442,7 @@ func cmdRun(args []string) int {
 		res := runHarness(ld, h, tierOf(*tier), known, 0, *verbose, *workersF)
 		printResult(res, true)
 	}
+	sym.DumpPathStats()
 	return 0
 }
 
